@@ -186,17 +186,61 @@ func c17Concurrent(c *ctx, seed uint64, size, goroutines, iters int, kind string
 	}
 }
 
+// a burst of Gets with nobody returning anything: more callers than the pool holds objects. Every
+// Get must complete (the callers that find the pool empty get a fresh object), none may wait for a
+// Return that is not coming, and no object may go to two callers.
+func c17Burst(c *ctx, seed uint64, size, callers, rounds int, kind string) {
+	in := map[string]interface{}{"op": "pool-burst", "pseed": seed, "size": size, "callers": callers, "rounds": rounds, "kind": kind}
+	p := newPoolOfKind(kind, size)
+	for round := 0; round < rounds; round++ {
+		cached := 1 + int((seed+uint64(round))%uint64(size))
+		var objs []interface{}
+		for i := 0; i < cached; i++ {
+			objs = append(objs, p.Get())
+		}
+		for _, o := range objs {
+			p.Return(o)
+		}
+		start := make(chan struct{})
+		got := make(chan interface{}, callers)
+		for g := 0; g < callers; g++ {
+			go func() {
+				<-start
+				got <- p.Get()
+			}()
+		}
+		close(start)
+		seen := map[interface{}]bool{}
+		deadline := time.After(3 * time.Second)
+		for g := 0; g < callers; g++ {
+			select {
+			case o := <-got:
+				if seen[o] {
+					c.fail("an object was handed to a second holder while still held", in, fmt.Sprint("round ", round), "")
+					return
+				}
+				seen[o] = true
+			case <-deadline:
+				c.fail("Get blocks: with fewer objects in the pool than callers, a caller waits for a Return instead of getting a fresh object", in, fmt.Sprintf("round %d: %d objects in the pool, %d of %d callers served after 3 s", round, cached, g, callers), "")
+				return
+			}
+		}
+	}
+}
+
 func runC17(c *ctx) {
 	if rp, ok := c.extra["replay"].(string); ok {
 		in := loadReplay(rp)
-		if in["op"] == "pool-seq" {
+		if in["op"] == "pool-burst" {
+			c17Burst(c, uint64(in["pseed"].(float64)), int(in["size"].(float64)), int(in["callers"].(float64)), int(in["rounds"].(float64)), in["kind"].(string))
+		} else if in["op"] == "pool-seq" {
 			c17Sequential(c, uint64(in["pseed"].(float64)), int(in["size"].(float64)), int(in["n"].(float64)), in["kind"].(string))
 		} else {
 			c17Concurrent(c, uint64(in["pseed"].(float64)), int(in["size"].(float64)), int(in["goroutines"].(float64)), int(in["iters"].(float64)), in["kind"].(string))
 		}
 		return
 	}
-	c.rule = "sequential histories of Get/Return by 4 clients on pools of size 0..8 of all three kinds (encoder, decoder, serializer), incl. Return on a full pool and Get on an empty one, each step compared with the harness's own FIFO expectation and, as a whole trace, with the Coq pool model; concurrent runs with 1..64 goroutines and an ownership table (an object handed out while held, a blocked call, more than `size` retained, an unusable fresh object are the failures). Distinct by (seed,size,kind[,goroutines]); non-trivial = at least one Return."
+	c.rule = "sequential histories of Get/Return by 4 clients on pools of size 0..8 of all three kinds (encoder, decoder, serializer), incl. Return on a full pool and Get on an empty one, each step compared with the harness's own FIFO expectation and, as a whole trace, with the Coq pool model; concurrent runs with 1..64 goroutines and an ownership table (an object handed out while held, a blocked call, more than `size` retained, an unusable fresh object are the failures); bursts of 8 simultaneous Gets on a pool holding fewer objects, nobody returning (every Get must complete). Distinct by (seed,size,kind[,goroutines]); non-trivial = at least one Return."
 	conc := strings.HasSuffix(os_Args0(), "-race") || c.extra["mode"] == "conc"
 	_ = conc
 	n := 3000
@@ -223,5 +267,17 @@ func runC17(c *ctx) {
 		c.eval(fmt.Sprint("c", seed, ":", g))
 		c.dist[fmt.Sprint("goroutines_", g)]++
 		c17Concurrent(c, seed, size, g, 300, kinds[i%3])
+	}
+	bn := 600
+	if c.tier == "thorough" {
+		bn = 6000
+	}
+	for i, size := range []int{1, 2, 4} {
+		for k, kind := range kinds {
+			seed := c.seed*53 + uint64(i*3+k)
+			c.eval(fmt.Sprint("b", seed, ":", size, kind))
+			c.dist["get_bursts"] += bn
+			c17Burst(c, seed, size, 8, bn, kind)
+		}
 	}
 }
